@@ -146,7 +146,11 @@ def judgeOutcome (thrown : List String) (st : JSt) (tag text : String) : List St
   let hbStayBad :=
     if st.probe0 != "" && field side0 "hb" == "1" && field side "hb" == "1" && o.segs.contains "fault-top" then
       [s!"heart-beat {tag} still on after its evaluation failed"] else []
-  regBad ++ loopBad ++ probeBad ++ sideBad ++ hbBad ++ hbStayBad ++ crashBad ++ cgBad ++ resBad ++ checkCatches thrown o.segs
+  -- LPC that runs between "error raised" and "error delivered" (the master's handler) saw interpreter scratch state of the
+  -- failed instruction
+  let scratchBad := if o.segs.any (fun s => (s.splitOn "scratch-mismatch").length > 1) then
+    [s!"scratch {tag} the master's error handler ran with interpreter scratch state left by the failed instruction"] else []
+  regBad ++ scratchBad ++ loopBad ++ probeBad ++ sideBad ++ hbBad ++ hbStayBad ++ crashBad ++ cgBad ++ resBad ++ checkCatches thrown o.segs
 
 def judgeLine (thrown : List String) (st : JSt) (line : String) : JSt :=
   if line.startsWith "crash" || line.startsWith "sanitizer" then { st with bad := st.bad ++ [s!"crash {line}"] }
